@@ -117,3 +117,39 @@ def refine_bool(n, truth, lookup, assume):
             return True
     assume(n, truth)
     return True
+
+
+# ---- dominating branch facts ------------------------------------------------
+
+def must_facts(fn, bid):
+    """[(cond node, truth)] for branch decisions that hold on every normal path to block bid."""
+    dom = fn.dominators()
+    out = []
+    for d in dom.get(bid, ()):
+        edges = fn.branch_edges(d)
+        if len(edges) != 2 or edges[0][1] is None:
+            continue
+        for (s, cond, truth), (s2, _, _) in ((edges[0], edges[1]), (edges[1], edges[0])):
+            if s == s2:
+                continue
+            if not (s == bid or s in dom.get(bid, ())):
+                continue
+            if s == d:
+                continue
+            # every other predecessor of s must itself be dominated by s (loop back edges)
+            ok = True
+            for p in fn.blocks[s].preds:
+                if p == d:
+                    continue
+                if s not in dom.get(p, ()):
+                    ok = False
+            if ok:
+                out.append((cond, truth))
+    return out
+
+
+def facts_at(fn, node_id):
+    pos = fn.positions()
+    if node_id not in pos:
+        return []
+    return must_facts(fn, pos[node_id][0])
